@@ -127,8 +127,16 @@ impl Cache for MemoryStore {
 
     fn flush(&self, header: CacheMetaData) {
         if header.time_to_live > 0 {
+            let now = self.timer.timestamp();
             self.memory.alter_all(|_key, mut value| {
-                value.header.time_to_live = header.time_to_live;
+                // expire at now + delay, unless the item expires earlier anyway
+                let age = now.saturating_sub(value.header.timestamp);
+                let time_to_live = age
+                    .saturating_add(header.time_to_live as u64)
+                    .min(u32::MAX as u64) as u32;
+                if value.header.time_to_live == 0 || time_to_live < value.header.time_to_live {
+                    value.header.time_to_live = time_to_live;
+                }
                 value
             });
         } else {
